@@ -178,6 +178,13 @@ def worker_main(jobfile, outfile):
 
 
 if __name__ == "__main__" and len(sys.argv) >= 4 and sys.argv[1] == "--worker":
+    # the codec under test is the one built from /repo's CURRENT C sources (tools/codec_build.py)
+    sys.path.insert(0, os.path.dirname(os.path.dirname(os.path.abspath(__file__))))
+    try:
+        import codec_build
+        codec_build.install()
+    except Exception as _ex:  # fall back to the extension found on PYTHONPATH
+        sys.stderr.write("codec_build failed: %r\n" % (_ex,))
     worker_main(sys.argv[2], sys.argv[3])
     sys.exit(0)
 
